@@ -32,8 +32,29 @@ func smallHarmless() []mutant {
 	return out
 }
 
+// round8Harmless: the correct optimisations / hygiene changes / restructurings of round 8
+// (refactors/r8/<property>/{a,b,c}.diff), each run against every rule.
+func round8Harmless() []mutant {
+	var out []mutant
+	ms, _ := filepath.Glob(filepath.Join(verifDir, "refactors", "r8", "*", "?.diff"))
+	sort.Strings(ms)
+	for _, m := range ms {
+		prop := filepath.Base(filepath.Dir(m))
+		rel, err := filepath.Rel(verifDir, m)
+		if err != nil {
+			continue
+		}
+		id := "h-r8-" + prop + "-" + strings.TrimSuffix(filepath.Base(m), ".diff")
+		if b, err := os.ReadFile(m); err == nil && (strings.Contains(string(b), "faiss_vector") || strings.Contains(string(b), "section_faiss")) {
+			out = append(out, mutant{Harmless: true, ID: id + "-vectors", Patch: rel, Vectors: true})
+		}
+		out = append(out, mutant{Harmless: true, ID: id, Patch: rel})
+	}
+	return out
+}
+
 func harmlessTable() []mutant {
-	return append(fixedHarmless(), smallHarmless()...)
+	return append(append(fixedHarmless(), smallHarmless()...), round8Harmless()...)
 }
 
 func fixedHarmless() []mutant {
@@ -205,6 +226,7 @@ func fixedHarmless() []mutant {
 		{Harmless: true, ID: "h-r7-C01-fixed", Patch: "seeded/C01g-perf-fields-seen-list/fixed.diff"},
 		{Harmless: true, ID: "h-r7-C02-fixed", Patch: "seeded/C02g-perf-idonly-fastpath/fixed.diff"},
 		{Harmless: true, ID: "h-r7-C03-fixed", Patch: "seeded/C03g-perf-retarget-readers/fixed.diff"},
+		{Harmless: true, ID: "h-r7-C04-fixed", Patch: "seeded/C04g-perf-reuse-counting-writer/fixed.diff"},
 		{Harmless: true, ID: "h-r7-C05-fixed", Patch: "seeded/C05g-perf-reset-segment-slots/fixed.diff"},
 		{Harmless: true, ID: "h-r7-C06-fixed", Patch: "seeded/C06g-perf-per-field-bytecopy/fixed.diff"},
 		{Harmless: true, ID: "h-r7-C07-fixed", Patch: "seeded/C07g-perf-recycle-actual-bitmap/fixed.diff"},
